@@ -347,12 +347,12 @@ def run(tier):
         ],
         assumptions=['Node(...) without _id= draws a fresh identity '
                      '(C12.R4)'])
-    rule_r1(chk, prog)
-    rule_r234(chk, prog)
+    chk.guard(rule_r1, chk, prog)
+    chk.guard(rule_r234, chk, prog)
     # fresh identities are unique across processes: same rule as C12.R4
     from . import c12
     sub = Check('C12', 'other', tier, [], [])
-    c12.rule_r4(sub, prog)
+    chk.guard(c12.rule_r4, sub, prog)
     chk.rule('C13.R5', 'identity source (shared with C12.R4): ids are '
              'drawn from the process-shared counter under its lock; _id= '
              'only in the unpickler')
